@@ -50,8 +50,9 @@ func genCloseSpec(seed uint64, tier string) *spec.RunSpec {
 	}
 	cs := &spec.CloseSpec{HorizonUs: 120000000}
 	idleChoices := []int64{0, 1000, 300000, 2000000, 4900000, 5100000, 7000000, 12000000, 65000000}
-	profile := r.Pick(0, 0, 1, 2, 3, 4) // 0 plain close, 1 back-pressure, 2 deadlines, 3 stop events, 4 underlay failure
-	s.Profile = fmt.Sprintf("c15-%s-%s", tr, []string{"close", "backpressure", "deadlines", "stop", "failure"}[profile])
+	profile := r.Pick(0, 0, 1, 2, 3, 4, 5) // 0 plain close, 1 back-pressure, 2 deadlines, 3 stop events, 4 underlay failure, 5 stop/failure under back-pressure
+	s.Profile = fmt.Sprintf("c15-%s-%s", tr, []string{"close", "backpressure", "deadlines", "stop", "failure", "backpressure-stop"}[profile])
+	bpWriterSide := ""
 	for ci, c := range s.Clients {
 		for _, se := range c.Sessions {
 			add := func(side, role string, ops ...spec.AOp) {
@@ -68,6 +69,11 @@ func genCloseSpec(seed uint64, tier string) *spec.RunSpec {
 				add(readerSide, "stuck-reader", spec.AOp{Op: "read", N: 64, Count: r.Pick(0, 1, 3)}, spec.AOp{Op: "sleep", Us: 400000000})
 				add(writerSide, "closer", spec.AOp{Op: "sleep", Us: int64(r.Pick(20000000, 40000000))}, spec.AOp{Op: "close"})
 				add(readerSide, "closer", spec.AOp{Op: "sleep", Us: 80000000}, spec.AOp{Op: "close"})
+			case 5: // as 1, but nobody closes the session: a Stop or an underlay failure arrives while the writer is blocked
+				writerSide, readerSide := closer, other
+				bpWriterSide = writerSide
+				add(writerSide, "writer", spec.AOp{Op: "write", N: r.Pick(1, 1, 200, 1400), Count: r.Pick(3000, 4500, 6000)})
+				add(readerSide, "stuck-reader", spec.AOp{Op: "read", N: 64, Count: r.Pick(0, 1, 3)}, spec.AOp{Op: "sleep", Us: 400000000})
 			case 2: // deadlines around multi-call reads and writes
 				side := []string{"client", "server"}[r.Intn(2)]
 				oth := map[string]string{"client": "server", "server": "client"}[side]
@@ -110,6 +116,18 @@ func genCloseSpec(seed uint64, tier string) *spec.RunSpec {
 	case 3:
 		kind := []string{"client-stop", "server-stop"}[r.Intn(2)]
 		cs.Events = append(cs.Events, spec.Event{AtUs: evAt, Kind: kind, Arg: 0})
+	case 5:
+		evAt = int64(r.Pick(20000000, 40000000))
+		kind := bpWriterSide + "-stop"
+		switch r.Intn(4) {
+		case 0:
+			kind = map[string]string{"client": "server-stop", "server": "client-stop"}[bpWriterSide]
+		case 1:
+			if tr == "tcp" {
+				kind = "reset"
+			}
+		}
+		cs.Events = append(cs.Events, spec.Event{AtUs: evAt, Kind: kind, Arg: 0})
 	case 4:
 		if tr == "tcp" {
 			cs.Events = append(cs.Events, spec.Event{AtUs: evAt, Kind: []string{"reset", "reset", "blackhole"}[r.Intn(3)], Arg: 0})
@@ -135,7 +153,7 @@ func genCloseSpec(seed uint64, tier string) *spec.RunSpec {
 	}
 	cs.HorizonUs = longest + 25000000
 	switch profile {
-	case 3:
+	case 3, 5:
 		cs.HorizonUs = max(cs.HorizonUs, evAt+30000000)
 	case 4:
 		cs.HorizonUs = max(cs.HorizonUs, evAt+100000000)
